@@ -176,3 +176,54 @@ func H_C17_migrate(other int) {
 	}
 	verifrt.Assert(!crashed, "process-survives")
 }
+
+// H_C17_migrate_other_client: two clients live in one process.  Client A configures its own data-centre table
+// through the public SetDCList (data centre 7 at a private address, data centre 2 moved).  Client B, which was
+// given no table of its own, is told PHONE_MIGRATE_d: it must act on *its* configuration - an error for d = 7
+// (never configured for B), the library's default address for d = 2 - and never dial an address that only A
+// was given.
+func H_C17_migrate_other_client() {
+	verifrt.SetClock(1600000000, 0, 1000)
+	def2 := defaultDCList()[2]
+	a := newNetEnv(3)
+	a.m.SetDCList(map[int]string{7: "10.7.7.7:443", 2: "10.2.2.2:443"})
+	n := newNetEnv(11) // client B
+	dials := 0
+	dialled := ""
+	var second *fakeTransport
+	verifrt.Hook("github.com/xelaj/mtproto/internal/transport.NewTransport", func(m messages.MessageInformator, conn transport.ConnConfig, v mode.Variant) (transport.Transport, error) {
+		dials++
+		if c, ok := conn.(transport.TCPConnConfig); ok {
+			dialled = c.Host
+		}
+		second = &fakeTransport{m: n.m, out: make(chan sentMsg, 256), in: make(chan srvMsg, 64)}
+		return second, nil
+	})
+	if !verifrt.Symbolic() {
+		verifrt.Assert(true, "engine-only-scenario")
+		return
+	}
+	crashed := verifrt.Catch(func() {
+		n.start()
+		var res c17Outcome
+		go func() {
+			v, err := n.m.MakeRequest(&objects.PingParams{PingID: 1000})
+			res.val, res.err = v, err
+			res.done++
+		}()
+		req := n.nextRequest(nil)
+		d := verifrt.ByteIn("27")
+		n.deliver(rpcResult(req.msgID, mustMarshal(&objects.RpcError{ErrorCode: 303, ErrorMessage: "PHONE_MIGRATE_" + string([]byte{d})})), 1)
+		verifrt.Quiesce()
+		if d == '7' {
+			verifrt.Assert(dials == 0, "other-clients-data-centre-is-not-dialled")
+			verifrt.Assert(res.done == 1 && res.err != nil && res.val == nil, "data-centre-configured-only-for-another-client-is-an-error")
+		} else {
+			verifrt.Assert(dials == 1 && dialled == def2, "migrate-dials-this-clients-own-address")
+		}
+	})
+	if crashed {
+		verifrt.Note("crash: " + verifrt.PanicMsg())
+	}
+	verifrt.Assert(!crashed, "process-survives")
+}
